@@ -315,6 +315,8 @@ def run(repo, rep):
     _memo_rule(repo, rep, 'C03', 'C03.Z1')
     from ..pitfalls import log_rule as _log_rule
     _log_rule(repo, rep, 'C03', 'C03.Z2')
+    from ..api_pitfalls import truth_rule as _truth_rule
+    _truth_rule(repo, rep, 'C03', 'C03.Z4')
     model = FsmModel(repo)
     pm = ProviderModel(repo, model)
     off, size, hdr, big = header_layout(repo)
